@@ -1,5 +1,6 @@
 import SphericalVerif.Gen.W3jKern
 import SphericalVerif.Lemmas.GenDiff
+import SphericalVerif.Lemmas.Frame
 /-! GenW3j — `Wigner3jCalculator.calculate` **as the Python text states it** (`Gen/W3jKern.lean`, regenerated on every run from
     spherical/recursions/wigner3j.py with `normalize` / `determine_signs` inlined, early returns, `break`s, the `raise` and the four views
     of the workspace restructured as described in that file; run at `Float` against the jitted method bit for bit on every run,
@@ -10,8 +11,9 @@ import SphericalVerif.Lemmas.GenDiff
     view is all zeros whatever the workspace held, nothing outside the workspace is written and the exception cell is untouched
     (`gen_w3j_out_of_range`, `gen_w3j_out_of_range_zeros`): C05's "exactly 0 whenever a selection rule fails" for `calculate`, and the
     history-independence (C09) of those calls, for the code as written.  The general recurrence path is tied by the bitwise
-    correspondence only (its hand-written model `Model.W3j.calculate` carries the theorems of `Props/C05`); a whole-kernel footprint proof
-    by the `frame_step` tactic does not terminate in reasonable time on the 400-line term (tuple-valued conditionals), see DESIGN §19. -/
+    correspondence only (its hand-written model `Model.W3j.calculate` carries the theorems of `Props/C05`).  The whole method — every path —
+    writes nothing but the object's own array (`gen_w3j_only`, by the let-peeling tactic `peel_all` of `Lemmas/Frame`: zeta-reducing the
+    400-line term, as `frame_step` alone would, does not terminate in reasonable time). -/
 namespace GenW3j
 open Gen GenDiff
 
@@ -89,6 +91,27 @@ theorem gen_w3j_out_of_range_zeros (ws : Nat) (size j2 j3 m2 m3 : Int) (st : φ)
   refine ⟨fun i h1 h2 => ?_, fun a i h1 => ?_⟩
   · rw [zeroed_cell, if_pos ⟨rfl, h1, h2⟩]
   · rw [zeroed_cell, if_neg (by intro ⟨c1, c2, c3⟩; rcases h1 with h1 | h1 | h1 <;> [exact h1 c1; omega; omega])]
+
+/-! ### footprints: the whole method writes its own workspace (and its exception cell), nothing else -/
+open Frame in
+set_option maxHeartbeats 1000000 in
+/-- **`Wigner3jCalculator.calculate` writes only the object's own array** — every path of the 230-line method: the zeroing, the forward
+    and reverse recursions, the three-term recurrence with rescaling, normalisation, the sign fix, the exception cell.  (By `peel_all`,
+    which walks the generated term without zeta-reducing it.) -/
+theorem gen_w3j_only (ws : Nat) (size j2 j3 m2 m3 : Int) (st : φ) :
+    Frame.Only α [ws] st (Gen.Wigner3jCalculator_calculate (α := α) ws size j2 j3 m2 m3 st) := by
+  unfold Gen.Wigner3jCalculator_calculate
+  peel_all
+
+open Frame in
+set_option maxHeartbeats 1000000 in
+/-- `Wigner3j` writes its result cell and the workspace of the calculator it constructs, nothing else -/
+theorem gen_wigner3j_only (res ws : Nat) (j1 j2 j3 m1 m2 m3 : Int) (st : φ) :
+    Frame.Only α [res, ws] st (Gen.Wigner3j (α := α) res ws j1 j2 j3 m1 m2 m3 st) := by
+  unfold Gen.Wigner3j
+  have hc : ∀ size a b c d (x : φ), Frame.Only α [res, ws] st x → Frame.Only α [res, ws] st (Gen.Wigner3jCalculator_calculate (α := α) ws size a b c d x) :=
+    fun size a b c d x hx => Frame.Only.trans _ _ _ _ hx (Frame.Only.mono _ _ _ _ (by simp) (gen_w3j_only ws size a b c d x))
+  peel_all
 
 /-! ### the front ends `Wigner3j` and `clebsch_gordan`, from the source: exactly 0 whenever a selection rule fails -/
 
